@@ -64,6 +64,10 @@ SCALARS = {
     "bool": [True, False],
 }
 PNAMES = ["alpha", "beta", "gamma", "delta", "omega", "kappa", "sigma"]
+# ordinary Python names that coincide with members of jsonargparse's Namespace class: init args under such names are stored
+# unadapted (open finding C14-namespace-member-init-arg-unadapted); generated families stay away from them
+CLASH_NAMES = ["items", "keys", "values", "get", "pop", "update"]
+F_CLASH = "C14-namespace-member-init-arg-unadapted"
 
 
 # ---------------------------------------------------------------------------------------------
@@ -93,7 +97,7 @@ def P(name, ty, default="REQ"):
 
 
 def gen_scalar_param(rng, name, required_p=0.2):
-    t = rng.choice(list(SCALARS))
+    t = rng.choice(["int", "str", "bool"] if name in CLASH_NAMES else list(SCALARS))
     return P(name, ("scalar", t), "REQ" if rng.random() < required_p else rng.choice(SCALARS[t]))
 
 
@@ -120,7 +124,7 @@ def gen_family(rng):
                 if rng.random() < 0.5:      # overridden default
                     ps[i]["default"] = rng.choice(SCALARS[ps[i]["ty"][1]])
                 else:                        # overridden type
-                    t = rng.choice(list(SCALARS))
+                    t = rng.choice(["int", "str", "bool"] if ps[i]["name"] in CLASH_NAMES else list(SCALARS))
                     ps[i] = P(ps[i]["name"], ("scalar", t), rng.choice(SCALARS[t]))
         if ps and rng.random() < 0.2:        # a parameter dropped
             del ps[rng.randrange(len(ps))]
@@ -371,6 +375,8 @@ def raw_to_json(fam, raw):
 def build_argv(fam, sources):
     argv = []
     for s in sources:
+        if s["form"] == "default":
+            continue                         # given to add_argument(default=...)
         if s["form"] == "dotted":
             key = []
             for i, k in enumerate(s["key"]):
@@ -382,13 +388,24 @@ def build_argv(fam, sources):
             argv.append("--opt.%s=%s" % (".".join(key), text))
         else:
             j = raw_to_json(fam, s["raw"])
-            if s.get("via") == "config":
+            if s.get("via") == "file" and isinstance(j, dict):
+                # the spec is in a file whose path is given (the argument is added with enable_path=True)
+                name = os.path.join(pkg_dir(), "spec_%s.json" % hashlib.sha256(json.dumps(j, sort_keys=True).encode()).hexdigest()[:12])
+                with open(name, "w") as f:
+                    f.write(json.dumps(j))
+                argv += ["--opt", name]
+            elif s.get("via") == "config":
                 argv += ["--config", json.dumps({"opt": j})]
             elif isinstance(j, str):
                 argv.append("--opt=" + j)
             else:
                 argv += ["--opt", json.dumps(j)]
     return argv
+
+
+def default_of(sources):
+    """the raw value of a leading `default` source (None when there is none)"""
+    return sources[0]["raw"] if sources and sources[0]["form"] == "default" else None
 
 
 # ---------------------------------------------------------------------------------------------
@@ -540,6 +557,14 @@ def ref_finalize(fam, state):
     return {"t": state["t"], "ia": out, "dk": dict(state["dk"])}
 
 
+def ref_step(fam, T, state, s):
+    if s["form"] == "dotted":
+        return ref_dotted(fam, T, state, s["key"], s["raw"])
+    if s["form"] == "default":
+        return ref_finalize(fam, ref_apply(fam, T, None, s["raw"]))
+    return ref_apply(fam, T, state, s["raw"])
+
+
 def reference(fam, T, sources):
     """('ok', final state | None) or ('reject', category)"""
     state = None
@@ -547,6 +572,9 @@ def reference(fam, T, sources):
         for s in sources:
             if s["form"] == "dotted":
                 state = ref_dotted(fam, T, state, s["key"], s["raw"])
+            elif s["form"] == "default":
+                # the parse starts from the completed default: what its class fills in counts as given afterwards
+                state = ref_finalize(fam, ref_apply(fam, T, None, s["raw"]))
             else:
                 state = ref_apply(fam, T, state, s["raw"])
         return ("ok", ref_finalize(fam, state))
@@ -606,20 +634,25 @@ def canon_real(v):
     if isinstance(v, Namespace) and "class_path" in v:
         ia = v.get("init_args")
         dk = v.get("dict_kwargs") or {}
-        return {"cp": v["class_path"], "ia": {k: canon_real(x) for k, x in (vars(ia).items() if ia is not None else [])},
+        return {"cp": v["class_path"], "ia": {k.lstrip("\u200b"): canon_real(x) for k, x in (vars(ia).items() if ia is not None else [])},
                 "dk": {k: canon_real(x) for k, x in dk.items()}}
     if isinstance(v, (Namespace, dict, list)):
         return {"other": repr(v)[:200]}
     return {"lit": lit(v)}
 
 
-def real_run(fam, T, argv, twice=True):
+def real_run(fam, T, argv, twice=True, default=None):
     from jsonargparse import ArgumentError, ArgumentParser
 
     mod = module_for(fam)
     parser = ArgumentParser(exit_on_error=False)
     parser.add_argument("--config", action="config")
-    parser.add_argument("--opt", type=getattr(mod, T))
+    kw = {}
+    if default is not None:
+        kw["default"] = raw_to_json(fam, default)
+    if any(isinstance(a, str) and a.endswith(".json") and os.path.basename(a).startswith("spec_") for a in argv):
+        kw["enable_path"] = True
+    parser.add_argument("--opt", type=getattr(mod, T), **kw)
     out = {}
     err = io.StringIO()
     try:
@@ -813,12 +846,21 @@ def current_target(fam, T, state):
 def gen_sources(rng, fam, T, n_steps, fault=None):
     """a list of sources; all valid, or with one injected fault in the last step"""
     sources, state = [], None
+    if rng.random() < 0.2 and acceptable(fam, T):
+        # the argument has a default: a dict with the full class_path (and some init_args)
+        target = rng.choice([t for t in acceptable(fam, T) if cls_of(fam, t)] or acceptable(fam, T))
+        sources.append({"form": "default", "raw": {"cp": "^" + target if cls_of(fam, target) else "@" + target,
+                                                   "ia": {k: v for k, v in gen_ia(rng, fam, target).items() if not isinstance(v, dict)}, "dk": None}})
+        if reference(fam, T, sources)[0] != "ok":
+            sources = []
+        else:
+            state = ref_step(fam, T, None, sources[0])
     for step in range(n_steps):
         last = step == n_steps - 1
         cur = current_target(fam, T, state)
         r = rng.random()
         if cur is None or r < 0.45:
-            src = {"form": "value", "raw": gen_spec_raw(rng, fam, T), "via": rng.choice(["argv", "argv", "config"])}
+            src = {"form": "value", "raw": gen_spec_raw(rng, fam, T), "via": rng.choice(["argv", "argv", "config", "file"])}
         else:
             params = [p for p in target_params(fam, cur) if p["ty"][0] in ("scalar", "cls", "optCls")]
             if not params:
@@ -858,7 +900,7 @@ def gen_sources(rng, fam, T, n_steps, fault=None):
         state = None
         try:
             for s in sources:
-                state = ref_dotted(fam, T, state, s["key"], s["raw"]) if s["form"] == "dotted" else ref_apply(fam, T, state, s["raw"])
+                state = ref_step(fam, T, state, s)
         except Reject:
             break
     return sources
@@ -917,7 +959,7 @@ def has_dk_before_change(fam, T, sources):
     try:
         for s in sources:
             prev = json.dumps(state_classes(state), sort_keys=True)
-            state = ref_dotted(fam, T, state, s["key"], s["raw"]) if s["form"] == "dotted" else ref_apply(fam, T, state, s["raw"])
+            state = ref_step(fam, T, state, s)
             now = state_classes(state)
             if had_dk and json.dumps(now, sort_keys=True) != prev:
                 return True
@@ -1037,7 +1079,9 @@ def run_cases(ctx: Ctx, cases, origin):
             lines.append({"setenv": wire_env(fam)})
             last_fam = key
         index.append(len(lines))
-        lines.append({"base": canonical(fam, T), "sources": [wire_source(fam, s) for s in sources], "fuel": 24})
+        d = default_of(sources)
+        lines.append({"base": canonical(fam, T), "sources": [wire_source(fam, s) for s in sources if s["form"] != "default"], "fuel": 24,
+                      "default": wire_raw(fam, d) if d is not None else None})
     model = None
     if lines:
         try:
@@ -1049,7 +1093,7 @@ def run_cases(ctx: Ctx, cases, origin):
     bad = 0
     for i, (fam, T, sources) in enumerate(cases):
         argv = build_argv(fam, sources)
-        real = real_run(fam, T, argv)
+        real = real_run(fam, T, argv, default=default_of(sources))
         ctx.count()
         ctx.hist("outcome", real["kind"] + (":" + real.get("cat", "") if real["kind"] == "reject" else ""))
         ctx.hist("declared", T)
@@ -1059,22 +1103,25 @@ def run_cases(ctx: Ctx, cases, origin):
         if real["kind"] == "ok" and real.get("ctors"):
             ctx.nontrivial(json.dumps([family_src(fam), T, argv]))
         finding = has_dk_before_change(fam, T, sources)
+        clash = any(p["name"] in CLASH_NAMES for c in fam["classes"] for p in c["params"])
         dev = oracle(fam, T, sources, real)
         if dev is not None:
             if finding and ctx.is_open(F_STALE_DK):
                 ctx.known(F_STALE_DK, "%s (argv %s)" % (dev[:200], json.dumps(argv)[:160]))
+            elif clash and ctx.is_open(F_CLASH):
+                ctx.known(F_CLASH, "%s (argv %s)" % (dev[:200], json.dumps(argv)[:160]))
             else:
                 def still(c):
-                    return oracle(fam, T, c, real_run(fam, T, build_argv(fam, c))) is not None and not has_dk_before_change(fam, T, c)
+                    return oracle(fam, T, c, real_run(fam, T, build_argv(fam, c), default=default_of(c))) is not None and not has_dk_before_change(fam, T, c)
 
                 small = shrink_sources(fam, T, sources, still)
                 a2 = build_argv(fam, small)
-                r2 = real_run(fam, T, a2)
+                r2 = real_run(fam, T, a2, default=default_of(small))
                 r2.pop("root", None)
                 ctx.violation("class_path handling deviates from the property: %s" % (oracle(fam, T, small, r2) or dev),
                               {"kind": "case", "origin": origin, "family": fam, "declared": T, "sources": small, "argv": a2,
                                "module": family_src(fam), "observed": {k: v for k, v in r2.items() if k != "root"}})
-        if model is not None and index[i] is not None:
+        if model is not None and index[i] is not None and not clash:
             d = corr_diff(fam, T, sources, real, model[index[i]])
             if d is not None:
                 bad += 1
@@ -1247,7 +1294,7 @@ def run(ctx: Ctx):
 
         for f in ctx.open_findings():
             w = f["witness"]
-            real = real_run(w["family"], w["declared"], build_argv(w["family"], w["sources"]))
+            real = real_run(w["family"], w["declared"], build_argv(w["family"], w["sources"]), default=default_of(w["sources"]))
             if oracle(w["family"], w["declared"], w["sources"], real) is not None:
                 ctx.known(f["id"], f["description"][:200])
             else:
@@ -1263,7 +1310,7 @@ def replay(ctx: Ctx, body):
         if rp.get("kind") == "case":
             fam, T, sources = rp["family"], rp["declared"], rp["sources"]
             argv = build_argv(fam, sources)
-            real = real_run(fam, T, argv)
+            real = real_run(fam, T, argv, default=default_of(sources))
             real.pop("root", None)
             print(family_src(fam))
             print("parser.add_argument('--opt', type=%s); parse_args(%r)" % (T, argv))
